@@ -170,6 +170,11 @@ pub enum Op {
     AddEdges(Vec<EdgeArg>),
     AddEdgeTuple(i32, i32),
     AddEdgeTuples(Vec<(i32, i32)>),
+    // derived graphs (C15): the derived graph replaces the current one
+    Subgraph(Vec<i32>),
+    Reverse,
+    SetWeights(i64),
+    ToSingle,
 }
 
 pub fn mk_node(n: NodeArg) -> Arc<Node<i32, i32>> {
@@ -228,6 +233,31 @@ impl Op {
             Op::AddEdges(es) => res_name(&g.add_edges(es.iter().map(|e| mk_edge(*e)).collect())),
             Op::AddEdgeTuple(u, v) => res_name(&g.add_edge_tuple(*u, *v)),
             Op::AddEdgeTuples(ts) => res_name(&g.add_edge_tuples(ts.clone())),
+            _ => self.apply_derive(g).0,
+        }
+    }
+
+    pub fn is_derive(&self) -> bool {
+        matches!(self, Op::Subgraph(_) | Op::Reverse | Op::SetWeights(_) | Op::ToSingle)
+    }
+
+    /// Derive operations: on success the derived graph replaces `g`.  Returns the outcome
+    /// and the projection of the SOURCE graph after the call (it must be unchanged).
+    pub fn apply_derive(&self, g: &mut G) -> (&'static str, Value) {
+        let r: Result<G, Error> = match self {
+            Op::Subgraph(s) => Ok(g.get_subgraph(s)),
+            Op::Reverse => g.reverse(),
+            Op::SetWeights(w) => Ok(g.set_all_edge_weights(w_to_f(*w))),
+            Op::ToSingle => g.to_single_edges(),
+            _ => unreachable!(),
+        };
+        let src_after = project(g);
+        match r {
+            Ok(ng) => {
+                *g = ng;
+                ("Ok", src_after)
+            }
+            Err(e) => (kind_name(&e.kind), src_after),
         }
     }
 
@@ -242,6 +272,10 @@ impl Op {
             Op::AddEdgeTuple(u, v) => json!({"k": "add_edge_tuple", "ns": [], "es": [[u, v, NAN_W, 0]]}),
             Op::AddEdgeTuples(ts) => json!({"k": "add_edge_tuples", "ns": [],
                 "es": ts.iter().map(|(u, v)| json!([u, v, NAN_W, 0])).collect::<Vec<_>>()}),
+            Op::Subgraph(s) => json!({"k": "subgraph", "ns": [], "es": [], "s": s, "w": 0}),
+            Op::Reverse => json!({"k": "reverse", "ns": [], "es": [], "s": [], "w": 0}),
+            Op::SetWeights(w) => json!({"k": "set_weights", "ns": [], "es": [], "s": [], "w": w}),
+            Op::ToSingle => json!({"k": "to_single", "ns": [], "es": [], "s": [], "w": 0}),
         }
     }
 
@@ -272,6 +306,10 @@ impl Op {
             "add_edges" => Op::AddEdges(es),
             "add_edge_tuple" => Op::AddEdgeTuple(es[0].0, es[0].1),
             "add_edge_tuples" => Op::AddEdgeTuples(es.iter().map(|e| (e.0, e.1)).collect()),
+            "subgraph" => Op::Subgraph(v["s"].as_array().unwrap().iter().map(|x| x.as_i64().unwrap() as i32).collect()),
+            "reverse" => Op::Reverse,
+            "set_weights" => Op::SetWeights(v["w"].as_i64().unwrap()),
+            "to_single" => Op::ToSingle,
             k => panic!("unknown op {}", k),
         }
     }
